@@ -287,6 +287,21 @@ Definition by_offset (s : pstate) (off : N) : option robj :=
   find (fun o => r_off o =? off) (p_oi s).
 Definition is_done (s : pstate) (off : N) : bool := existsb (N.eqb off) (p_done s).
 
+(* checkDeltaChainDepth(oh) for a delta not yet given a depth (oh.chainDepth = 0), [pd] = parent.chainDepth.
+   The walk first counts oh itself on the uncached path (`depth++; if depth > maxDeltaChainDepth`), then
+   meets the parent.  Parents come from the cache, which holds resolved objects only: a resolved delta is
+   a delta on disk and carries its cached chainDepth > 0, so the walk takes the cached path
+   (`depth += current.chainDepth; if depth > maxDeltaChainDepth`; break); a whole object or a thin-pack
+   placeholder is not a delta on disk (chainDepth 0) and ends the walk.  Both comparisons are against the
+   constant regenerated from the source (Gen/C08.v). *)
+Definition chain_depth (pd : N) : option N :=
+  let depth := 1 in
+  if MAX_DEPTH <? depth then None                    (* uncached path *)
+  else if 0 <? pd then
+    let depth := depth + pd in
+    if MAX_DEPTH <? depth then None else Some depth  (* cached path *)
+  else Some depth.
+
 (* processDelta: find the parent, check the chain depth, apply, add to the cache.
    parent = (type, content, depth). *)
 Definition process_delta (ext : store) (s : pstate) (d : ohdr) : option pstate :=
@@ -314,8 +329,9 @@ Definition process_delta (ext : store) (s : pstate) (d : ohdr) : option pstate :
   match parent with
   | None => None
   | Some (pt, pc, pd, s1) =>
-    let depth := pd + 1 in
-    if MAX_DEPTH <? depth then None else
+    match chain_depth pd with
+    | None => None
+    | Some depth =>
     match oh_data d with
     | [] => None                                 (* an empty delta cannot be applied *)
     | _ =>
@@ -325,6 +341,7 @@ Definition process_delta (ext : store) (s : pstate) (d : ohdr) : option pstate :
         let o := mkR (oh_off d) pt tsz (obj_id pt tsz out) out (oh_crc d) depth in
         Some (mkP (o :: p_oi s1) (oh_off d :: p_done s1) (p_ext s1))
       end
+    end
     end
   end.
 
@@ -398,6 +415,20 @@ End PackParse.
 
 (* ---------------------------------------------------------------- correspondence entry points *)
 From GoGit Require Import Spec.PackHash.
+
+(* a chain of [n] delta links on a whole object, resolved link by link as the walk does (each link sees its
+   parent's cached depth): the depth rule alone.  Used for the boundary cases, whose packs hold thousands of
+   objects: the reply is the number of objects indexed. *)
+Fixpoint chain_walk (n : nat) (pd : N) : option N :=
+  match n with
+  | O => Some pd
+  | S k => match chain_depth pd with None => None | Some d => chain_walk k d end
+  end.
+Definition c08_chain (links : N) : out :=
+  match chain_walk (N.to_nat links) 0 with
+  | Some _ => OOk [ON (links + 1)]
+  | None => OErr "reject"
+  end.
 
 (* the inflate variable instantiated by a table computed with Go's compress/zlib at every offset of
    the case's pack: position = total length - remaining length *)
